@@ -66,9 +66,20 @@ impl HetTable {
     ) -> Result<Self> {
         reader.seek(SeekFrom::Start(offset))?;
 
-        // Read the compressed/encrypted data
-        let mut data = vec![0u8; compressed_size as usize];
-        reader.read_exact(&mut data)?;
+        // Read the compressed/encrypted data. `compressed_size` is a 64-bit header
+        // value (or derived from header positions): read through `take` so the buffer
+        // only grows as far as the archive really delivers data, then check the length.
+        let mut data = Vec::new();
+        reader
+            .by_ref()
+            .take(compressed_size)
+            .read_to_end(&mut data)?;
+        if data.len() as u64 != compressed_size {
+            return Err(Error::invalid_format(format!(
+                "HET table truncated: header says {compressed_size} bytes, archive has {}",
+                data.len()
+            )));
+        }
 
         // Check if we have at least the extended header (12 bytes)
         if data.len() < 12 {
